@@ -1,5 +1,6 @@
 (* C13 — impure functions are never cached or keyed unless explicitly allowed. *)
-From Connectome Require Import Values Attrs VM Edges EdgesGen MiscGen GraphHashModel Impure ImpureFacts C01Inst.
+From Connectome Require Import Values Attrs VM Edges EdgesGen TravGen GraphHashModel Impure ImpureFacts C01Inst.
+From Connectome Require GraphGen.
 Local Open Scope list_scope.
 
 (* the walk of CacheLayer._detect_impure (regenerated rule: raise on ImpureEdge, visit every parent) answers "yes"
@@ -34,3 +35,10 @@ Example C13_example :
   detect_impure 6 g 3 = true /\ hash_graph g [0] 6 3 = None /\ detect_impure 6 g 4 = false /\ hash_graph g [0] 6 4 <> None.
 Proof. vm_compute. repeat split; discriminate. Qed.
 Print Assumptions C13_example.
+
+(* The dataset-wide layers (Filter, GroupBy, Join, Split, and CacheColumns through Graph.hash of its columns) reject an impure
+   dependency because engine/graph.py hash_graph walks every parent of every node of the keyed sub-graph and ImpureEdge._hash_graph
+   raises: the walk is the regenerated traversal (memoised, every parent visited, a fresh placeholder for the input). *)
+Theorem C13_hash_graph_is_translated : GraphGen.trav_hash_graph = Memo /\ GraphGen.placeholder_is_fresh_object = true.
+Proof. split; reflexivity. Qed.
+Print Assumptions C13_hash_graph_is_translated.
